@@ -34,6 +34,7 @@ func rulesC16(c *Ctx, r *Report) {
 	rulesGrdPkg(c, r, []string{"regions"}, 10)
 	rulesLenMismatchPanics(c, r)
 	rulesSweep(c, r)
+	rulesMakeThenAppend(c, r, "regions")
 }
 
 // rulesSweep: (SNAPSHOT) every piece of the index stores a fresh key list of the active set taken at that
@@ -538,4 +539,125 @@ func rulesAtSearch(c *Ctx, r *Report, at *ssa.Function) {
 	})
 	okPrev = okPrev && len(sets) > 0 && nNonNil > 0
 	r.check(okZero && okPrev, "SEARCH", fname(at), "answer from the preceding breakpoint", c.pos(at.Pos()), "positions before the first breakpoint get nil; otherwise the answer is a copy of the set stored at the breakpoint just before the search result", "At does not answer nil for search result 0 and a copy of idx[at-1].idxs otherwise (a stored set is read at another index, or what is returned is not a copy of that set)")
+}
+
+// rulesMakeThenAppend (MAKE-APPEND): a slice made with a non-zero length and then only ever appended to (never
+// indexed, never a copy destination) starts with that many zero elements that nothing overwrites.
+func rulesMakeThenAppend(c *Ctx, r *Report, rels ...string) {
+	want := map[string]bool{}
+	for _, rel := range rels {
+		want[modPath+"/"+rel] = true
+	}
+	n := 0
+	for _, f := range c.moduleFuncs() {
+		if !want[funcPkgPath(f)] {
+			continue
+		}
+		instrs(f, func(in ssa.Instruction) {
+			var made ssa.Value
+			switch x := in.(type) {
+			case *ssa.MakeSlice:
+				if k, ok := cInt(constVal(x.Len)); ok && k == 0 {
+					return
+				}
+				made = x
+			case *ssa.Slice:
+				if isConstMake(x) <= 0 {
+					return
+				}
+				// const make: `new [N]T` sliced; length is the slice's high bound (nil = N)
+				if x.High != nil {
+					if k, ok := cInt(constVal(x.High)); ok && k == 0 {
+						return
+					}
+				}
+				made = x
+			default:
+				return
+			}
+			n++
+			// values that are this slice: itself, loads of cells it is stored into
+			same := map[ssa.Value]bool{made: true}
+			var cells []*ssa.Alloc
+			for _, ref := range *made.Referrers() {
+				if st, ok := ref.(*ssa.Store); ok && st.Val == made {
+					if al, ok := st.Addr.(*ssa.Alloc); ok {
+						cells = append(cells, al)
+					}
+				}
+			}
+			appended, written := false, false
+			consider := func(v ssa.Value) {
+				for _, ref := range *v.Referrers() {
+					switch y := ref.(type) {
+					case *ssa.IndexAddr:
+						for _, r2 := range *y.Referrers() {
+							if _, ok := r2.(*ssa.Store); ok {
+								written = true
+							}
+							if _, ok := r2.(ssa.CallInstruction); ok {
+								written = true // address handed on
+							}
+						}
+					case *ssa.Slice:
+						written = true // re-sliced: could be cut to [:0]
+					case *ssa.Call:
+						if b, ok := y.Call.Value.(*ssa.Builtin); ok {
+							switch b.Name() {
+							case "append":
+								if y.Call.Args[0] == v {
+									appended = true
+								}
+							case "copy":
+								if y.Call.Args[0] == v {
+									written = true
+								}
+							}
+						} else {
+							written = true // passed to a function that may fill it
+						}
+					case *ssa.MakeInterface:
+						for _, r2 := range *y.Referrers() {
+							if cl, ok := r2.(*ssa.Call); ok && cl.Call.StaticCallee() != nil && strings.HasPrefix(qname(cl.Call.StaticCallee()), "sort.") {
+								continue // sorting permutes, it does not fill
+							}
+							if _, ok := r2.(*ssa.DebugRef); ok {
+								continue
+							}
+							written = true
+						}
+					case *ssa.Phi, *ssa.Return, *ssa.MapUpdate:
+						written = true // flows on: not decided here
+					case *ssa.Store:
+						if y.Val == v {
+							if _, ok := y.Addr.(*ssa.Alloc); !ok {
+								written = true
+							}
+						}
+					}
+				}
+			}
+			consider(made)
+			for _, al := range cells {
+				// only if this is the first value of the cell: later appends store back into it
+				for _, ref := range *al.Referrers() {
+					if ld, ok := ref.(*ssa.UnOp); ok && ld.Op == token.MUL {
+						// loads reached only while the cell still holds `made` or an append chain from it
+						consider(ld)
+						_ = same
+					}
+					if _, ok := ref.(*ssa.MakeClosure); ok {
+						// captured: the closure may index it
+						for _, ld := range *al.Referrers() {
+							_ = ld
+						}
+					}
+				}
+			}
+			if appended && !written {
+				r.violated("MAKE-APPEND", fname(f), "make with a length, then append", c.pos(in.Pos()), "the slice is made with a non-zero length and then only appended to: it starts with that many zero elements which stay in front of everything appended (make([]T, 0, n) was meant)")
+			}
+		})
+	}
+	r.holds("MAKE-APPEND", strings.Join(rels, ","), "scan", "", fmt.Sprintf("%d slices made with a non-zero length examined: each is indexed, copied into, re-sliced or handed on — none is only appended to", n))
 }
